@@ -31,16 +31,17 @@ REPS = {
     "#kw": ["accept", "fn", "import", "std", "filtermap", "return", "super", "test"],
     "#digit": ["1a", "9", "0x1"],
     "#dot": ["a.b", "a.", ".a"],
-    "#space": ["a b", "f ", " f", "a\n", "a\tb"],
+    "#space": ["a b", "f ", " f", "a\n", "a\tb", "f\t", "\tf", "\nf", "double  "],
+    "#comment": ["double // twice", "f //", "f// x", "f //\n"],
     "#empty": [""],
     "#bool": ["true", "false"],
     "#hyphen": ["a-b", "-a", "a+"],
     "#na1": ["é1"],
     "#na2": ["東京"],
 }
-DEFECTS = ["none", "bad-keyword", "bad-digit", "bad-dot", "bad-space", "nonascii", "dup-name", "taken-builtin",
+DEFECTS = ["none", "bad-keyword", "bad-digit", "bad-dot", "bad-space", "bad-comment", "nonascii", "dup-name", "taken-builtin",
            "taken-builtin-prim", "prim-name-in-module", "dup-rust-type", "use-empty", "use-missing", "use-missing-mid", "child-order",
-           "split", "readd", "macro", "usetree", "dup-first"]
+           "split", "readd", "macro", "usetree", "dup-first", "sig/root", "sig/root-rev", "sig/module", "sig/no-type"]
 DEFECTS_THOROUGH = ["bad-empty", "bad-boollit", "bad-hyphen"]
 KINDS = ["mod", "type", "fn", "const", "impl", "use"]
 WHYS = ["badname", "taken", "duptype", "unregistered"]
@@ -163,13 +164,33 @@ def _map_names(obj, f):
     return obj
 
 
-def concretize(case, idx):
-    """abstract class representatives ('#kw' ..) -> concrete names; adds the harness-level fields."""
+def concretize(case, idx, counters=None):
+    """abstract class representatives ('#kw' ..) -> concrete names; adds the harness-level fields.
+    The representatives of a class are rotated separately for every kind of item that carries the name,
+    so that every concrete string meets every item kind."""
+    kind_of = {}
+
+    def walk(items):
+        for it in items:
+            if it.get("name") in REPS:
+                kind_of.setdefault(it["name"], it["k"])
+            walk(it["items"])
+    for a in case["adds"]:
+        walk(a["lib"])
+    chosen = {}
+    for ph in REPS:
+        r = REPS[ph]
+        if counters is not None and ph in kind_of:
+            key = (ph, kind_of[ph])
+            n = counters.get(key, 0)
+            counters[key] = n + 1
+            chosen[ph] = r[n % len(r)]
+            counters.setdefault("seen", set()).add((ph, kind_of[ph], chosen[ph]))
+        else:
+            chosen[ph] = r[idx % len(r)]
+
     def f(s):
-        if s in REPS:
-            r = REPS[s]
-            return r[idx % len(r)]
-        return s
+        return chosen.get(s, s)
     c = _map_names(case, f)
     c["from_lib"] = idx % 2 == 1      # Runtime::from_lib(lib) instead of Runtime::new() + add(lib) for the first add
     for a in c["adds"]:
@@ -209,10 +230,11 @@ def generate_cases(tier, ev):
     d = vlib.workdir(PID, "cfg")
     if tier == "quick":
         plan = [("single", 3, 3, True), ("split", 3, 0, True), ("readd", 2, 2, True), ("macro", 1, 0, True),
-                ("dup1", 1, 0, True), ("dup2", 1, 0, True), ("usetree", 1, 0, True)]
+                ("dup1", 1, 0, True), ("dup2", 1, 0, True), ("usetree", 1, 0, True), ("sig", 1, 0, True)]
     else:
         plan = [("single", 3, 3, False), ("single", 4, 2, True), ("split", 4, 0, True), ("readd", 3, 3, True),
-                ("macro", 1, 0, True), ("dup1", 1, 0, True), ("dup2", 1, 0, True), ("usetree", 1, 0, True)]
+                ("macro", 1, 0, True), ("dup1", 1, 0, True), ("dup2", 1, 0, True), ("usetree", 1, 0, True),
+                ("sig", 1, 0, True)]
     cases = []
     parts = []
     for (mode, n, nd, light) in plan:
@@ -302,6 +324,43 @@ def vacuity(cases, tier, ev):
     if stale:
         raise vlib.ToolError("harness/src/tables/c18_usetrees.rs lacks %d use trees of the spec (e.g. `%s`): "
                              "run tools/gen_c18_usetrees.py" % (len(stale), stale[0]))
+    # compound signatures: Result / Verdict with different component types in return and parameter position,
+    # every type constructor, nesting, and every probe form
+    sigfam = Counter()
+
+    def sigwalk(items):
+        for it in items:
+            if it["k"] == "fn":
+                for pos, ts in (("ret", [it["r"]]), ("par", it["ps"])):
+                    for t in ts:
+                        k, a = ty_args(t)
+                        if k:
+                            name = {1: "Option", 2: "List", 3: "Result", 4: "Verdict"}[k]
+                            sigfam["%s/%s" % (name, pos)] += 1
+                            if len(a) == 2 and a[0] != a[1]:
+                                sigfam["%s/%s/different-components" % (name, pos)] += 1
+                            if t >= 1000000:
+                                sigfam["nested/%s" % pos] += 1
+            if it["k"] == "const" and it["ty"] >= 100:
+                sigfam["const"] += 1
+            sigwalk(it["items"])
+    for c in cases:
+        for a in c["adds"]:
+            if a["defect"].startswith("sig/"):
+                sigwalk(a["lib"])
+                for q in a["probes"]:
+                    if q["obs"]:
+                        sigfam["probe/%s" % q["kind"]] += 1
+    for must in ["%s/%s" % (n, pos) for n in ("Option", "List", "Result", "Verdict") for pos in ("ret", "par")] + \
+                ["%s/%s/different-components" % (n, pos) for n in ("Result", "Verdict") for pos in ("ret", "par")] + \
+                ["nested/ret", "nested/par", "const", "probe/fn", "probe/method", "probe/const", "probe/match", "probe/cons"]:
+        if sigfam[must] == 0:
+            raise vlib.ToolError("compound-signature family missing from the generated cases: %s" % must)
+    ev.extra["compound_signature_families"] = dict(sigfam)
+    missing_codes = sig_codes_of(cases) - table_sig_codes()
+    if missing_codes:
+        raise vlib.ToolError("harness/src/tables/c18_sigs.rs lacks type codes %s of the spec: run tools/gen_c18_sigs.py" %
+                             sorted(missing_codes)[:5])
     need = DEFECTS + (DEFECTS_THOROUGH if tier != "quick" else [])
     missing = [x for x in need if defects[x] == 0] + [x for x in KINDS if kinds[x] == 0] + \
               [x for x in WHYS if whys[x] == 0] + [x for x in ("Ok", "Err", "Unspec") if outs[x] == 0] + \
@@ -399,6 +458,10 @@ def compare(case, res, verd):
             touches = inj is not None and (inj["name"] in p["path"] or (inj["k"] == "type" and inj["ty"] in ([p.get("r"), p.get("ty")] + list(p.get("ps", [])))))
             where = dict(what, probe_kind=p["kind"], via=p["via"], touches_injected="yes" if touches else "no")
             desc = "%s %s (%s)" % (p["kind"], ".".join(p["path"]), p["via"])
+            tyc = next((t for t in [p.get("r", 0), p.get("ty", 0)] + list(p.get("ps", [])) if t >= 5), 0)
+            if tyc:
+                desc += " [signature over %s, i.e. Rust %s]" % (roto_ty(tyc), rust_ty(tyc))
+                where["type"] = roto_ty(tyc)
             if pr["st"] == "panic":
                 verd.report(dict(where, kind_of_failure="probe-panic", loc=pr.get("loc", "?")),
                             "compiling / running a script that uses %s panicked: %s at %s; library %s" %
@@ -417,6 +480,12 @@ def compare(case, res, verd):
                                                                      libtxt(a)[:400]),
                                 {"case": case, "add": k, "probe": p, "got": pr})
                     ok = False
+            elif pr["st"] == "ok" and pr["tag"] == p["tag"] and p.get("obs") and pr.get("obs") != p["obs"]:
+                verd.report(dict(where, kind_of_failure="wrong-value"),
+                            "%s with a signature over %s: the values observed through it must be %s (canonical values 0..3 of "
+                            "that type), observed %s; library %s" % (desc, roto_ty(tyc), p["obs"], pr.get("obs"), libtxt(a)),
+                            {"case": case, "add": k, "probe": p, "got": pr})
+                ok = False
             elif pr["st"] != "ok" or pr["tag"] != p["tag"]:
                 verd.report(dict(where, kind_of_failure="unreachable" if pr["st"] != "ok" else "wrong-item"),
                             "%s must be usable and return tag %d; observed %s; library %s" %
@@ -444,7 +513,16 @@ def spec_to_impl(tier, ev, verd):
     cases, parts = generate_cases(tier, ev)
     vacuity(cases, tier, ev)
     ev.extra["exhaustive_parts"] = parts
-    conc = [concretize(c, i) for i, c in enumerate(cases)]
+    # deterministic order (TLC's workers print in any order), then class representatives are rotated per item kind
+    cases.sort(key=lambda c: vlib.shash(c))
+    counters = {}
+    conc = [concretize(c, i, counters) for i, c in enumerate(cases)]
+    seen = counters.get("seen", set())
+    lacking = [(ph, k, r) for ph in ("#space", "#comment", "#kw", "#digit", "#dot") for k in ("fn", "mod", "const", "type")
+               for r in REPS[ph] if (ph, k, r) not in seen]
+    if lacking:
+        raise vlib.ToolError("invalid-name forms that never met an item kind: %s" % lacking[:6])
+    ev.extra["invalid_name_forms"] = {ph: REPS[ph] for ph in ("#space", "#comment", "#kw", "#digit", "#dot")}
     results = vlib.run_batch("c18", conc, extra=["replay"], nproc=8, pid=PID, tag="replay", stall=60)
     nconf = 0
     for c, res in zip(conc, results):
